@@ -1558,6 +1558,7 @@ func runC15(r *Run) {
 	c15Log(r, snap, 8, false, 1, "m")
 	c15Bridge(r, snap, 4, 2, false, []byte("m\n"), false)
 	c15Bridge(r, snap, 2, 5, false, []byte("m\n"), false)
+	c15BadValuers(r, snap)
 	resetProcess(snap)
 }
 
@@ -1570,6 +1571,8 @@ func replayC15(r *Run, file string) {
 	captureStd(r.Out)
 	r.Coq(c15Header, "case", "ok")
 	switch c.Kind {
+	case "bad-valuer":
+		c15BadValuers(r, snap)
 	case "conv":
 		c15Conv(r, snap, c.Z)
 	case "back":
